@@ -508,7 +508,10 @@
         }
         pool.push(("bytes".into(), Value::from_bytes(vec![0, 2, 4])));
         pool.push(("bytes-empty".into(), Value::from_bytes(vec![])));
-        let maps: Vec<Vec<(&'static str, Value)>> = vec![vec![], vec![("a", Value::from(1))], vec![("a", Value::from(1)), ("b", Value::from(2))], vec![("a", Value::from(1.0)), ("b", Value::from(2u64))], vec![("a", Value::from(2))]];
+        let maps: Vec<Vec<(&'static str, Value)>> = vec![vec![], vec![("a", Value::from(1))], vec![("a", Value::from(1)), ("b", Value::from(2))], vec![("a", Value::from(1.0)), ("b", Value::from(2u64))], vec![("a", Value::from(2))],
+            // values that equal what a missing key yields: a map is not equal to one with other keys just because the values are undefined / none
+            vec![("a", Value::UNDEFINED)], vec![("b", Value::UNDEFINED)], vec![("a", Value::from(()))], vec![("b", Value::from(()))], vec![("a", Value::UNDEFINED), ("b", Value::from(2))], vec![("b", Value::from(2)), ("c", Value::UNDEFINED)],
+            vec![("a", Value::from(vec![Value::UNDEFINED]))], vec![("b", Value::from(vec![Value::UNDEFINED]))]];
         for (i, m) in maps.iter().enumerate() {
             pool.push((format!("btreemap#{i}"), Value::from(m.iter().cloned().collect::<BTreeMap<_, _>>())));
             pool.push((format!("lazymap#{i}"), Value::from_object(LazyMap(m.clone()))));
